@@ -32,8 +32,7 @@ Pinned == {"basepath_needs_host",        \* F-C17-4   servers only when there is
            "back_http_https_only",       \* F-C17-10
            "back_binary_is_parameter",   \* F-C17-11  every binary string schema is taken for a form file parameter
            "back_json_only",             \* F-C17-12
-           "back_body_name_search_first", \* F-C17-15  a free name among body / requestBody is demanded even when x-originalParamName is there
-           "shared_form_key_hidden_by_definition"} \* F-C17-20 a shared form parameter is kept in components.schemas under its key, where the definition of that key replaces it
+           "back_body_name_search_first"} \* F-C17-15  a free name among body / requestBody is demanded even when x-originalParamName is there
 
 (* switches of behaviours that have been repaired in the tree (not in Pinned any more): *)
 (*   "back_no_discriminator"     F-C17-1                                                 *)
@@ -41,10 +40,13 @@ Pinned == {"basepath_needs_host",        \* F-C17-4   servers only when there is
 (*   "back_binary_param_type_format_only"  F-C17-16 ... then kept only type and format   *)
 (*   "back_input_nullable_reset" F-C17-18/19 FromV3 reset nullable in its input; a shared *)
 (*                               body with several media types lost x-nullable            *)
+(*   "shared_form_key_hidden_by_definition" F-C17-20 a shared form parameter was kept in   *)
+(*                               components.schemas under its key, where the definition of *)
+(*                               that key replaced it (now converted where it is used)     *)
 (* (F-C17-17, the x-formData-name marker written into ToV3's input, was an edit of the    *)
 (* input only and never had a switch: the model has no notion of the input changing)      *)
 Repaired == {"back_no_discriminator", "back_binary_param_panics", "back_binary_param_type_format_only",
-             "back_input_nullable_reset"}
+             "back_input_nullable_reset", "shared_form_key_hidden_by_definition"}
 
 RefV(o) == IF o.m["$ref"].t = "str" THEN o.m["$ref"].s ELSE "?"
 RefO(r) == O(KV("$ref", S(r)))
